@@ -744,6 +744,9 @@ def main():
                 out.append(run_ui(case, npz))
             elif case['kind'] == 'results':
                 out.append(run_results(case, npz))
+            elif case['kind'] == 'ext':
+                import c11x_impl
+                out.append(c11x_impl.run_ext(case, npz))
             else:
                 out.append(run_propagator(case, npz))
         except Exception:
